@@ -171,6 +171,8 @@ def oracle(op, out):
     elif k == "CKpEnc":
         if list(BI.decode_to_bin_keypath(out)) != [int(x) for x in op[1]]:
             return "decode_to_bin_keypath(encode_from_bin_keypath(l)) != l"
+    elif k in ("CEncKV", "CEncBranch", "CEncLeaf") and not isinstance(out, Exc) and isinstance(parse_or_exc(ND, out), str):
+        return f"parse_node of a node produced by encode_*_node raised {parse_or_exc(ND, out)}"
     elif k == "CEncKV" and not isinstance(out, Exc):
         t, p, c = ND.parse_node(out)
         if (t, list(p), bytes(c)) != (0, [int(x) for x in op[1]], op[2]):
@@ -231,6 +233,8 @@ def gen_cases(rng, tier):
         ops.append(("CKpDec", bytes([b0, 0xa5])))
     ops.append(("CDecode", b""))
     ops.append(("CKpDec", b""))
+    for nbits in (255, 256, 257, 260, 261, 264, 272, 512, 520):
+        ops.append(("CEncKV", [(i * 7 + nbits) % 3 == 0 for i in range(nbits)], bytes([nbits % 256]) * 32))
     # binary nodes: every type byte x EVERY length up to 70 (the impossible lengths are a range, not a few boundary points),
     # with bodies whose packed key path decodes (0x00.., 0x10.., 0x81..) and bodies that do not
     for tb in (0, 1, 2, 3, 255):
@@ -264,7 +268,9 @@ def gen_cases(rng, tier):
             ln = rng.choice([1, 2, 32, 33, 34, 35, 64, 65, 66, 70])
             ops.append(("CParse", bytes([tb]) + bytes(rng.randrange(256) for _ in range(ln - 1))))
         elif r < 0.8:
-            ops.append(("CEncKV", [rng.random() < 0.5 for _ in range(rng.randint(0, 40))],
+            # key paths of every size class: short, around the 32-byte-key mark (256 bits), and well beyond it (binary-trie keys
+            # are arbitrary byte strings)
+            ops.append(("CEncKV", [rng.random() < 0.5 for _ in range(rng.choice([rng.randint(0, 40), rng.randint(250, 270), rng.randint(271, 700)]))],
                         bytes(rng.randrange(256) for _ in range(rng.choice([32, 32, 32, 31, 33])))))
         elif r < 0.84:
             ops.append(("CEncBranch", bytes(rng.randrange(256) for _ in range(rng.choice([32, 32, 31]))),
@@ -294,6 +300,13 @@ def gen_cases(rng, tier):
         import rlp
         ops.append(("CRlpDec", bytes(rlp.codec.encode_raw(it))))
     return ops
+
+
+def parse_or_exc(ND, node):
+    try:
+        return ND.parse_node(node)
+    except Exception as e:
+        return f"{type(e).__name__}: {e}"
 
 
 def gen_item(rng, depth):
